@@ -996,6 +996,71 @@ func counterMsg(i, width int) []byte {
 // Sign(sum of dealer secrets, m), and that verifies under the group key.
 func sweepRun(g *group, m []byte) result { return sweepRunOn(g, m, combos(g.n, g.k), true) }
 
+var msgLengths = []int{0, 1, 31, 32, 33, 63, 64, 65, 100, 127, 128, 129, 255, 256, 1000, 4096}
+
+// lenMsg: a message of length L; variant 1 starts with a zero byte.
+func lenMsg(L, variant int) []byte {
+	m := make([]byte, L)
+	for i := range m {
+		m[i] = byte(0x51 + 7*i + 13*L + 101*variant)
+		if m[i] == 0 {
+			m[i] = 0xa5
+		}
+	}
+	if variant == 1 && L > 0 {
+		m[0] = 0
+	}
+	return m
+}
+
+// msglenRun: the whole property for a message of a given length, plus: the group signature of m must
+// not verify for a sibling message that shares m's first 64 bytes / m's last 32 bytes.
+func msglenRun(g *group, m []byte) result {
+	subsets := windows(g.n, g.k)
+	if g.n <= 5 {
+		subsets = combos(g.n, g.k)
+	}
+	L := fmt.Sprint(len(m))
+	r := sweepRunOn(g, m, subsets, false)
+	if r.bad {
+		if len(r.sig) > len("C13:sweep:") && r.sig[:len("C13:sweep:")] == "C13:sweep:" {
+			r.sig = "C13:msglen:" + L + ":" + r.sig[len("C13:sweep:"):]
+		}
+		return r
+	}
+	var sibs [][]byte
+	if len(m) >= 1 { // same prefix (all but the last byte; for lengths > 64 the first 64 bytes agree)
+		s1 := append([]byte{}, m...)
+		s1[len(s1)-1] ^= 0x01
+		sibs = append(sibs, s1)
+		sibs = append(sibs, append(append([]byte{}, m...), 0x00)) // m extended by one byte
+	}
+	if len(m) >= 33 { // same last 32 bytes
+		s2 := append([]byte{}, m...)
+		s2[0] ^= 0x80
+		sibs = append(sibs, s2)
+	}
+	var bad result
+	p, v, site := fw.Try(func() {
+		gsk := *groupsig.NewSeckeyFromBigInt(new(big.Int).Set(g.gskWant))
+		e := groupsig.Sign(gsk, m)
+		for _, sb := range sibs {
+			if groupsig.VerifySig(g.gpk, sb, e) {
+				bad = result{bad: true, sig: "C13:msglen:" + L + ":sibling-accepted", obs: hex.EncodeToString(sb),
+					msg: fmt.Sprintf("the group signature of the %d-byte message %x also verifies under the group key for the different message %x", len(m), m, sb)}
+				return
+			}
+		}
+	})
+	if p {
+		return result{bad: true, sig: "C13:panic:" + site, msg: fmt.Sprintf("panic in VerifySig (message length %d): %v", len(m), v), obs: "panic"}
+	}
+	if bad.bad {
+		return bad
+	}
+	return result{outcome: "msglen:holds", obs: "ok"}
+}
+
 // windows: the n threshold-size sets {i, i+1, .., i+k-1} (mod n): every member is in k of them.
 func windows(n, k int) [][]int {
 	var out [][]int
@@ -1119,6 +1184,12 @@ func execCase(g *group, k *kase, ch *fw.Chooser) result {
 		return parentRun(g, k.Cand, k.Ord, ch)
 	case "round1-fault":
 		return round1FaultRun(g, k.Ord, k.Fault, k.FMem, k.FPos)
+	case "msglen":
+		m, err := hex.DecodeString(k.M)
+		if err != nil {
+			panic(err)
+		}
+		return msglenRun(g, m)
 	case "reload-sweep":
 		var r result
 		if g.n <= 5 {
@@ -1493,6 +1564,35 @@ func run(c *fw.Ctx) {
 		c.Count("cpu_ms_round1-fault", cpuMs()-t0)
 	}
 
+	// --- L. message length as a dimension: one group per size, 16 lengths x 2 contents
+	{
+		t0 := cpuMs()
+		for _, n := range tp.ns {
+			g := getGroup(n, 0, "hash")
+			if !g.ready() {
+				continue
+			}
+			for _, L := range msgLengths {
+				for variant := 0; variant < 2; variant++ {
+					if L == 0 && variant == 1 {
+						continue
+					}
+					if !mine() || expired() {
+						continue
+					}
+					ks := g.kase("msglen", 0)
+					ks.M = hex.EncodeToString(lenMsg(L, variant))
+					if L == 0 {
+						ks.M = ""
+					}
+					record(c, g, ks, nil, execCase(g, &ks, nil))
+				}
+			}
+		}
+		c.Count("cpu_ms_msglen", cpuMs()-t0)
+		c.Note("message_lengths", msgLengths)
+	}
+
 	// --- R. persistence sweep: many DKG instances (so that the members' share sums fall on both sides of
 	// the order and of 2^256), keys stored + reloaded, then the whole property for one message
 	{
@@ -1750,6 +1850,7 @@ func main() {
 			"(dkg arrival order per member | share pairing check | RecoverGroupSignature on a map of s>=k shares | model.GroupSignGenerator | round1 groupSignGenerator | " +
 			"one set of share objects reused over consecutive recoveries of every k-subset, its supersets and both collectors, then re-verified | " +
 			"message sweep: the whole property for a fixed small group and one counter message | " +
+			"message length: the whole property for one message of each length 0..4096 (two contents) and rejection of sibling messages sharing its first 64 / last 32 bytes | " +
 			"persistence sweep: one DKG instance (many dealer seed sets) whose key material went through the joined-group store and back, then the whole property | " +
 			"round1.Update fed the honest pieces of a subset of >= k members in an arrival order plus ONE piece that must not count (good block share + bad beacon share | bad block + good beacon | both bad | duplicate) from a member inside or outside the subset at every position | " +
 			"production call sites that size a collector themselves: createGroupContext (parent size, candidate count), round1.Start, group public key collector, DKG context with a larger candidate list) " +
